@@ -54,16 +54,23 @@ func (watcher *RequestWatcher) GetRequest(requestID string) (*Request, bool) {
 	return req, found
 }
 
-func (watcher *RequestWatcher) AddRequest(req *Request) {
-	watcher.requestCount.Add(1)
-
+// AddRequestIfBelow registers the request unless maxCount requests are
+// registered already. The test and the registration are one atomic step, so
+// concurrent arrivals cannot both take the last slot.
+func (watcher *RequestWatcher) AddRequestIfBelow(req *Request, maxCount int64) bool {
 	watcher.requestsMapMutex.Lock()
+	if watcher.requestCount.Load() >= maxCount {
+		watcher.requestsMapMutex.Unlock()
+		return false
+	}
+	watcher.requestCount.Add(1)
 	watcher.requests[req.GetID()] = req
 	watcher.requestsMapMutex.Unlock()
 
 	watcher.expireMapMutex.Lock()
 	watcher.requestsExpireAt[req.GetID()] = req.GetExpireAt()
 	watcher.expireMapMutex.Unlock()
+	return true
 }
 
 func (watcher *RequestWatcher) RemoveFromWatchList(requestID string) {
